@@ -526,6 +526,8 @@ class Lib:
             return OpaqueV(fresh('str', Opaque), 'str')        # message strings: content irrelevant
         if isinstance(a, (Num, BoolV)) and isinstance(b, (Num, BoolV)):
             return self.num_binop(run, op, a, b)
+        if isinstance(a, (ArmV, OptArmV)) or isinstance(b, (ArmV, OptArmV)):
+            raise Unsupported('arm-parametric: arithmetic (%s) on an arm label' % op)
         if isinstance(a, Ref) and isinstance(b, (Ref, SeqV)) and op == 'Add' and \
                 isinstance(run.deref(a), (ListO, SeqO, SymListO)):
             return self.list_concat(run, a, b)
@@ -660,6 +662,9 @@ class Lib:
             if op == 'NotEq':
                 return BoolV(a.term != b.term)
             raise Unsupported('arm-parametric: order comparison of arm labels')
+        if (isinstance(a, (ArmV, OptArmV)) or isinstance(b, (ArmV, OptArmV))) and \
+                (op in ('Lt', 'LtE', 'Gt', 'GtE') or isinstance(a, (Num, StrV)) or isinstance(b, (Num, StrV))):
+            raise Unsupported('arm-parametric: comparison (%s) of an arm label with a constant or by order' % op)
         if isinstance(a, Lazy) and isinstance(b, Lazy) and a.kind == b.kind == 'setof' and op in ('Eq', 'NotEq'):
             sa, sb = self.as_seq(run, a.payload), self.as_seq(run, b.payload)
             if sb is None and isinstance(b.payload, Lazy) and b.payload.kind == 'dictview':
@@ -764,6 +769,9 @@ class Lib:
         from . import libcalls, liblinalg, libml, libarraylike      # noqa: registration of the call table
         if name.startswith('exc.'):
             return OpaqueV(fresh('exc', Opaque), 'exc:' + name[4:])     # an exception object (only its class matters)
+        if name in NONPARAMETRIC and any(_is_label(run, a) for a in list(args) + ([recv] if recv is not None else [])):
+            # C20 (MT3): labels may only be compared for equality, hashed by dicts and stored
+            raise Unsupported('arm-parametric: %s applied to arm labels' % name)
         h = libcalls.TABLE.get(name)
         if h is None:
             # method tables by receiver kind
@@ -774,6 +782,28 @@ class Lib:
     def call_opaque(self, run, f, args, kwargs):
         from . import libcalls
         return libcalls.call_opaque(self, run, f, args, kwargs)
+
+
+NONPARAMETRIC = {'builtins.sorted', 'builtins.hash', 'builtins.int', 'builtins.float', 'builtins.ord', 'builtins.abs',
+                 'builtins.round', 'builtins.repr', 'builtins.id', 'np.sort', 'np.argsort', 'list.sort', 'np.lexsort',
+                 'seq.sort', 'seq.argsort'}
+
+
+def _is_label(run, v):
+    if isinstance(v, (ArmV, OptArmV)):
+        return True
+    if isinstance(v, SeqV) and v.kind == 'A':
+        return True
+    if isinstance(v, Ref):
+        try:
+            o = run.deref(v)
+        except Exception:      # noqa
+            return False
+        if isinstance(o, SeqO) and o.skind == 'A':
+            return True
+        if isinstance(o, ListO) and o.items and all(isinstance(i, ArmV) for i in o.items):
+            return True
+    return False
 
 
 _none_consts = {}
